@@ -7,6 +7,7 @@ pub mod reqs;
 pub mod corpus;
 pub mod gcsim;
 pub mod heap;
+pub mod histsim;
 pub mod json;
 pub mod rng;
 pub mod util;
